@@ -908,13 +908,17 @@ def _run_case(case):
                 cpu = _time.process_time() - cpu0
                 stats['max:cpu_ms_per_evaluate'] = max(
                     stats.get('max:cpu_ms_per_evaluate', 0), int(cpu * 1000))
-                if cpu > CPU_BOUND:
+                # (the traced lines themselves cost CPU - about 3.5 us
+                # each under the step clock - and are already bounded by the
+                # step budget; the gauge is for what the clock cannot see)
+                if cpu > CPU_BOUND + 1e-5 * st.steps:
                     viol = {'tag': 'budget:cpu', 'detail': {
                         'op': seq, 'target': target, 'outcome': out,
                         'cpu_seconds': round(cpu, 1), 'steps': st.steps,
                         'reachable': exp['R'],
                         'why': f'one evaluate() burnt more than {CPU_BOUND}s '
-                        'of CPU outside traced Python lines'}}
+                        '(+10 us per traced line) of CPU outside traced '
+                        'Python lines'}}
                     break
             if uf.fired:
                 bump('fault:transient_userfunc', uf.fired)
